@@ -232,7 +232,7 @@ theorem sgNode_ne (n a b : Nat) (sa sb : Bool) (h : a ≠ b ∨ sa ≠ sb) (ha :
   · exact h h2
 
 theorem search_sound (g : Graph) (hs : g.simpleB = true) (hp : g.positiveB = true)
-    (pick : List Nat → Nat) (hpick : PickOK pick) (S hid : List Nat) (a : Nat) (sa : Bool) (b : Nat) (sb : Bool)
+    (pick : Pick) (hpick : PickOK pick) (S hid : List Nat) (a : Nat) (sa : Bool) (b : Nat) (sb : Bool)
     (ha : a < g.n) (hb : b < g.n) (hne : a ≠ b ∨ sa ≠ sb) (L : Option Int) (w : Int) (Z : List Nat)
     (hres : searchSigned g pick S hid a sa b sb L = some (w, Z)) :
     ∃ es, WalkSpec g S hid a sa b sb es ∧ es.Nodup ∧ Z = setOf es ∧ w = listW g es ∧
@@ -248,7 +248,7 @@ theorem search_sound (g : Graph) (hs : g.simpleB = true) (hp : g.positiveB = tru
   exact h5.2 _ (ewalk_adjwalk _ _ hok hw)
 
 theorem search_complete (g : Graph) (hs : g.simpleB = true) (hp : g.positiveB = true)
-    (pick : List Nat → Nat) (hpick : PickOK pick) (S hid : List Nat) (a : Nat) (sa : Bool) (b : Nat) (sb : Bool)
+    (pick : Pick) (hpick : PickOK pick) (S hid : List Nat) (a : Nat) (sa : Bool) (b : Nat) (sb : Bool)
     (ha : a < g.n) (hb : b < g.n) (hne : a ≠ b ∨ sa ≠ sb) (L : Option Int) (es0 : List Nat)
     (h0 : WalkSpec g S hid a sa b sb es0)
     (hmin : ∀ es', WalkSpec g S hid a sa b sb es' → listW g es0 ≤ listW g es') (hl : Below L (listW g es0)) :
@@ -528,20 +528,20 @@ theorem phase_tbb (g : Graph) (S C : List Nat) (hC : PhaseOK g 1 S C) (srch : Na
 /-! ### the all-vertices searches -/
 
 theorem allv_sound (g : Graph) (hs : g.simpleB = true) (hp : g.positiveB = true)
-    (pick : List Nat → Nat) (hpick : PickOK pick) (S : List Nat) (hS : StrictSorted S)
+    (pk : PickFam) (hpk : ∀ i L, PickOK (pk i L)) (S : List Nat) (hS : StrictSorted S)
     (v : Nat) (hv : v < g.n) (L : Option Int) (r : Int × List Nat)
-    (h : searchSigned g pick S [] v true v false L = some r) : OddRes g S r := by
+    (h : searchSigned g (pk v L) S [] v true v false L = some r) : OddRes g S r := by
   obtain ⟨w, Z⟩ := r
   obtain ⟨es, h1, h2, rfl, rfl, _, _⟩ :=
-    search_sound g hs hp pick hpick S [] v true v false hv hv (Or.inr (by decide)) L w Z h
+    search_sound g hs hp (pk v L) (hpk v L) S [] v true v false hv hv (Or.inr (by decide)) L w Z h
   obtain ⟨q1, q2, q3⟩ := closed_trail_odd g S hS v es h2 (fun e he => (h1.1 e he).1) h1.2.1 (level_odd h1.2.2)
   exact ⟨q1, q2, q3.symm⟩
 
 theorem allv_complete (g : Graph) (hs : g.simpleB = true) (hp : g.positiveB = true)
-    (pick : List Nat → Nat) (hpick : PickOK pick) (S : List Nat) (hS : StrictSorted S)
+    (pk : PickFam) (hpk : ∀ i L, PickOK (pk i L)) (S : List Nat) (hS : StrictSorted S)
     (C : List Nat) (hC : PhaseOK g 1 S C) :
     ∃ v, v < g.n ∧ ∀ L, (∀ l, L = some l → wt g C < l) →
-      ∃ c, searchSigned g pick S [] v true v false L = some (wt g C, c) := by
+      ∃ c, searchSigned g (pk v L) S [] v true v false L = some (wt g C, c) := by
   obtain ⟨v, es, hv, hsub, _, hw, hlev, hwt⟩ := evenset_to_signed_walk g hs hp S hS C hC.1 hC.2.1
   refine ⟨v, hv, ?_⟩
   intro L hL
@@ -557,7 +557,7 @@ theorem allv_complete (g : Graph) (hs : g.simpleB = true) (hp : g.positiveB = tr
   have heq : listW g es0 = wt g C := by
     have := hlow es0 i1
     omega
-  rcases search_complete g hs hp pick hpick S [] v true v false hv hv (Or.inr (by decide)) L es0 i1 i3
+  rcases search_complete g hs hp (pk v L) (hpk v L) S [] v true v false hv hv (Or.inr (by decide)) L es0 i1 i3
     (fun l hl => by rw [heq]; exact hL l hl) with ⟨Z, hZ⟩ | ⟨_, es2, j1, j2, j3⟩
   · exact ⟨Z, by rw [← heq]; exact hZ⟩
   · exfalso
@@ -594,9 +594,9 @@ theorem hidden_closed (g : Graph) (S : List Nat) (e : Nat) (heS : e ∈ S) (hem 
   · rw [par_app, level_even hlev, par_cons, par_nil, List.contains_iff_mem.2 heS]; rfl
 
 theorem hid_sound (g : Graph) (hs : g.simpleB = true) (hp : g.positiveB = true)
-    (pick : List Nat → Nat) (hpick : PickOK pick) (S : List Nat) (hS : StrictSorted S) (hSm : ∀ e ∈ S, e < g.m)
+    (pk : PickFam) (hpk : ∀ i L, PickOK (pk i L)) (S : List Nat) (hS : StrictSorted S) (hSm : ∀ e ∈ S, e < g.m)
     (σ : List Nat) (hσ : σ.Perm S) (i : Nat) (L : Option Int) (r : Int × List Nat)
-    (h : hiddenIndexTbb g pick S σ i L = some r) : OddRes g S r := by
+    (h : hiddenIndexTbb g pk S σ i L = some r) : OddRes g S r := by
   unfold hiddenIndexTbb at h
   cases hi : σ[i]? with
   | none => rw [hi] at h; cases h
@@ -607,7 +607,7 @@ theorem hid_sound (g : Graph) (hs : g.simpleB = true) (hp : g.positiveB = true)
     have hem := hSm e heS
     have hf := simpleB_facts g hs e hem
     unfold hiddenSearch at h
-    cases hres : searchSigned g pick S (σ.drop i) (g.src e) true (g.tgt e) true L with
+    cases hres : searchSigned g (pk e L) S (σ.drop i) (g.src e) true (g.tgt e) true L with
     | none => rw [hres] at h; cases h
     | some wz =>
       obtain ⟨w, Z⟩ := wz
@@ -618,7 +618,7 @@ theorem hid_sound (g : Graph) (hs : g.simpleB = true) (hp : g.positiveB = true)
       · simp only [Option.some.injEq] at h
         subst h
         obtain ⟨es, h1, h2, rfl, rfl, _, _⟩ :=
-          search_sound g hs hp pick hpick S (σ.drop i) _ true _ true hf.1 hf.2.1 (Or.inl hf.2.2) L w Z hres
+          search_sound g hs hp (pk e L) (hpk e L) S (σ.drop i) _ true _ true hf.1 hf.2.1 (Or.inl hf.2.2) L w Z hres
         have hnot : e ∉ es := fun he => (h1.1 e he).2 (mem_drop_of_getElem? hi)
         obtain ⟨c1, c2, c3⟩ := hidden_closed g S e heS hem es (fun f hf => (h1.1 f hf).1) h1.2.1 h1.2.2
         have hnd : (es ++ [e]).Nodup := by
@@ -634,10 +634,10 @@ theorem hid_sound (g : Graph) (hs : g.simpleB = true) (hp : g.positiveB = true)
         exact ⟨q1, q2, q3.symm⟩
 
 theorem hid_complete (g : Graph) (hs : g.simpleB = true) (hp : g.positiveB = true)
-    (pick : List Nat → Nat) (hpick : PickOK pick) (S : List Nat) (hS : StrictSorted S) (hSm : ∀ e ∈ S, e < g.m)
+    (pk : PickFam) (hpk : ∀ i L, PickOK (pk i L)) (S : List Nat) (hS : StrictSorted S) (hSm : ∀ e ∈ S, e < g.m)
     (σ : List Nat) (hσ : σ.Perm S) (C : List Nat) (hC : PhaseOK g 1 S C) :
     ∃ j, j < σ.length ∧ ∀ L, (∀ l, L = some l → wt g C < l) →
-      ∃ c, hiddenIndexTbb g pick S σ j L = some (wt g C, c) := by
+      ∃ c, hiddenIndexTbb g pk S σ j L = some (wt g C, c) := by
   obtain ⟨j, e, es, hje, havoid, hw, hlev, hwt⟩ := hiddenEdge_covers g hs hp S σ hS hσ C hC.1 hC.2.1
   have hjl : j < σ.length := by
     rcases Nat.lt_or_ge j σ.length with h | h
@@ -667,10 +667,10 @@ theorem hid_complete (g : Graph) (hs : g.simpleB = true) (hp : g.positiveB = tru
   rw [hje]
   simp only
   unfold hiddenSearch
-  rcases search_complete g hs hp pick hpick S (σ.drop j) _ true _ true hf.1 hf.2.1 (Or.inl hf.2.2) L es0 i1 i3
+  rcases search_complete g hs hp (pk e L) (hpk e L) S (σ.drop j) _ true _ true hf.1 hf.2.1 (Or.inl hf.2.2) L es0 i1 i3
     (fun l hl => by have := hL l hl; omega) with ⟨Z, hZ⟩ | ⟨_, es2, j1, j2, j3⟩
   · obtain ⟨es1, k1, _, rfl, _, _, _⟩ :=
-      search_sound g hs hp pick hpick S (σ.drop j) _ true _ true hf.1 hf.2.1 (Or.inl hf.2.2) L _ Z hZ
+      search_sound g hs hp (pk e L) (hpk e L) S (σ.drop j) _ true _ true hf.1 hf.2.1 (Or.inl hf.2.2) L _ Z hZ
     have hnot : (setOf es1).contains e = false := by
       cases hc : (setOf es1).contains e with
       | false => rfl
@@ -699,10 +699,10 @@ theorem hiddenTake_eq (g : Graph) (e : Nat) (best res : Cyc (List Nat)) :
     · cases best <;> rfl
     · cases best <;> rfl
 
-theorem hiddenLoop_eq (g : Graph) (pick : List Nat → Nat) (S σ : List Nat) :
+theorem hiddenLoop_eq (g : Graph) (pk : PickFam) (S σ : List Nat) :
     ∀ (k i : Nat) (best : Cyc (List Nat)), σ.length - i = k →
-      hiddenLoop g pick S (σ.drop i) best =
-        minFold (hiddenIndexTbb g pick S σ) (List.range' i (σ.length - i)) best := by
+      hiddenLoop g pk S (σ.drop i) best =
+        minFold (hiddenIndexTbb g pk S σ) (List.range' i (σ.length - i)) best := by
   intro k
   induction k with
   | zero =>
@@ -723,9 +723,9 @@ theorem hiddenLoop_eq (g : Graph) (pick : List Nat → Nat) (S σ : List Nat) :
     simp only
     rw [List.drop_eq_getElem_cons hi]
 
-theorem hiddenLoop_seqMin (g : Graph) (pick : List Nat → Nat) (S σ : List Nat) :
-    hiddenLoop g pick S σ none = seqMin (hiddenIndexTbb g pick S σ) 0 σ.length := by
-  have := hiddenLoop_eq g pick S σ σ.length 0 none rfl
+theorem hiddenLoop_seqMin (g : Graph) (pk : PickFam) (S σ : List Nat) :
+    hiddenLoop g pk S σ none = seqMin (hiddenIndexTbb g pk S σ) 0 σ.length := by
+  have := hiddenLoop_eq g pk S σ σ.length 0 none rfl
   rw [List.drop_zero] at this
   exact this
 
@@ -747,26 +747,26 @@ theorem sgAdjE_single (g : Graph) (e : Nat) : sgAdjE g [] [e] = sgAdjE g [e] [e]
     have h2 : [e].contains e' = false := by simpa using h
     rw [h1, h2]
 
-theorem singleEdgeTbb_eq (g : Graph) (pick : List Nat → Nat) (e : Nat) :
-    singleEdgeTbb g pick e = hiddenIndexTbb g pick [e] [e] 0 none := by
+theorem singleEdgeTbb_eq (g : Graph) (pk : PickFam) (e : Nat) :
+    singleEdgeTbb g pk e = hiddenIndexTbb g pk [e] [e] 0 none := by
   unfold singleEdgeTbb hiddenIndexTbb hiddenSearch searchSigned
   rw [sgAdjE_single]
   rfl
 
 theorem tbb_general (g : Graph) (hs : g.simpleB = true) (hp : g.positiveB = true)
-    (pick : List Nat → Nat) (hpick : PickOK pick) (S : List Nat) (hS : StrictSorted S) (hSm : ∀ e ∈ S, e < g.m)
+    (pk : PickFam) (hpk : ∀ i L, PickOK (pk i L)) (S : List Nat) (hS : StrictSorted S) (hSm : ∀ e ∈ S, e < g.m)
     (σ : List Nat) (hσ : σ.Perm S) (hex : ∃ Z, EvenSet g Z ∧ dotPar Z S = true)
     (s : Sched) (hcov : s.Covers 0 (if g.n ≤ S.length then g.n else S.length)) :
-    PhaseFound g S (if g.n ≤ S.length then allVerticesTbb g pick S s else hiddenTbb g pick S σ s) := by
+    PhaseFound g S (if g.n ≤ S.length then allVerticesTbb g pk S s else hiddenTbb g pk S σ s) := by
   obtain ⟨C, hC⟩ := phaseOK_exists g hp S hex
   by_cases hn : g.n ≤ S.length
   · rw [if_pos hn] at hcov ⊢
-    exact phase_tbb g S C hC _ g.n (fun i L r hi h => allv_sound g hs hp pick hpick S hS i hi L r h)
-      (allv_complete g hs hp pick hpick S hS C hC) s hcov
+    exact phase_tbb g S C hC _ g.n (fun i L r hi h => allv_sound g hs hp pk hpk S hS i hi L r h)
+      (allv_complete g hs hp pk hpk S hS C hC) s hcov
   · rw [if_neg hn] at hcov ⊢
     rw [← hσ.length_eq] at hcov
-    exact phase_tbb g S C hC _ σ.length (fun i L r _ h => hid_sound g hs hp pick hpick S hS hSm σ hσ i L r h)
-      (hid_complete g hs hp pick hpick S hS hSm σ hσ C hC) s hcov
+    exact phase_tbb g S C hC _ σ.length (fun i L r _ h => hid_sound g hs hp pk hpk S hS hSm σ hσ i L r h)
+      (hid_complete g hs hp pk hpk S hS hSm σ hσ C hC) s hcov
 
 /-! ### the main loop -/
 
@@ -891,44 +891,44 @@ theorem foldl_weights (g : Graph) : ∀ (ph : List CycW) (a : Int), (∀ p ∈ p
 /-- **one phase of `mcb_sva_signed`** — both branches, for every heap behaviour and every iteration order `σ` of the
 `std::set` of signed edges -/
 theorem signedPhaseSearch_ok (g : Graph) (hs : g.simpleB = true) (hp : g.positiveB = true)
-    (pick : List Nat → Nat) (hpick : PickOK pick) (S : List Nat) (hS : StrictSorted S) (hSm : ∀ e ∈ S, e < g.m)
+    (pk : PickFam) (hpk : ∀ i L, PickOK (pk i L)) (S : List Nat) (hS : StrictSorted S) (hSm : ∀ e ∈ S, e < g.m)
     (σ : List Nat) (hσ : σ.Perm S) (hex : ∃ Z, EvenSet g Z ∧ dotPar Z S = true) :
-    PhaseFound g S (signedPhaseSearch g pick σ S) := by
+    PhaseFound g S (signedPhaseSearch g pk σ S) := by
   obtain ⟨C, hC⟩ := phaseOK_exists g hp S hex
   unfold signedPhaseSearch
   by_cases hn : g.n ≤ S.length
   · rw [if_pos hn]
-    exact phase_seq g S C hC _ g.n (fun i L r hi h => allv_sound g hs hp pick hpick S hS i hi L r h)
-      (allv_complete g hs hp pick hpick S hS C hC)
+    exact phase_seq g S C hC _ g.n (fun i L r hi h => allv_sound g hs hp pk hpk S hS i hi L r h)
+      (allv_complete g hs hp pk hpk S hS C hC)
   · rw [if_neg hn, hiddenLoop_seqMin]
-    exact phase_seq g S C hC _ σ.length (fun i L r _ h => hid_sound g hs hp pick hpick S hS hSm σ hσ i L r h)
-      (hid_complete g hs hp pick hpick S hS hSm σ hσ C hC)
+    exact phase_seq g S C hC _ σ.length (fun i L r _ h => hid_sound g hs hp pk hpk S hS hSm σ hσ i L r h)
+      (hid_complete g hs hp pk hpk S hS hSm σ hσ C hC)
 
 /-- **one phase of `mcb_sva_signed_tbb`** (`OddCycleFinder::find`: single-edge shortcut / all vertices / hidden-edge
 heuristic) — additionally for every execution of the `parallel_reduce` -/
 theorem signedPhaseSearchTbb_ok (g : Graph) (hs : g.simpleB = true) (hp : g.positiveB = true)
-    (pick : List Nat → Nat) (hpick : PickOK pick) (S : List Nat) (hS : StrictSorted S) (hSm : ∀ e ∈ S, e < g.m)
+    (pk : PickFam) (hpk : ∀ i L, PickOK (pk i L)) (S : List Nat) (hS : StrictSorted S) (hSm : ∀ e ∈ S, e < g.m)
     (σ : List Nat) (hσ : σ.Perm S) (hex : ∃ Z, EvenSet g Z ∧ dotPar Z S = true)
     (s : Sched) (hcov : s.Covers 0 (if g.n ≤ S.length then g.n else S.length)) :
-    PhaseFound g S (signedPhaseSearchTbb g pick σ S s) := by
+    PhaseFound g S (signedPhaseSearchTbb g pk σ S s) := by
   match S, hS, hSm, hσ, hex, hcov with
-  | [], hS, hSm, hσ, hex, hcov => exact tbb_general g hs hp pick hpick [] hS hSm σ hσ hex s hcov
+  | [], hS, hSm, hσ, hex, hcov => exact tbb_general g hs hp pk hpk [] hS hSm σ hσ hex s hcov
   | [e], hS, hSm, hσ, hex, hcov =>
     obtain ⟨C, hC⟩ := phaseOK_exists g hp [e] hex
     have hσe : σ = [e] := List.perm_singleton.1 hσ
     subst hσe
-    show PhaseFound g [e] (singleEdgeTbb g pick e)
+    show PhaseFound g [e] (singleEdgeTbb g pk e)
     rw [singleEdgeTbb_eq]
-    obtain ⟨j, hj, hcomp⟩ := hid_complete g hs hp pick hpick [e] hS hSm [e] hσ C hC
+    obtain ⟨j, hj, hcomp⟩ := hid_complete g hs hp pk hpk [e] hS hSm [e] hσ C hC
     have hj0 : j = 0 := by simp at hj; omega
     subst hj0
     obtain ⟨c, hc⟩ := hcomp none (fun l hl => by cases hl)
     apply phaseFound_of g [e] C hC
     · rw [hc]; rfl
     · intro r hr
-      exact hid_sound g hs hp pick hpick [e] hS hSm [e] hσ 0 none r hr
+      exact hid_sound g hs hp pk hpk [e] hS hSm [e] hσ 0 none r hr
   | a :: b :: rest, hS, hSm, hσ, hex, hcov =>
-    exact tbb_general g hs hp pick hpick (a :: b :: rest) hS hSm σ hσ hex s hcov
+    exact tbb_general g hs hp pk hpk (a :: b :: rest) hS hSm σ hσ hex s hcov
 
 /-- **main loop**: if every phase's search delivers `PhaseFound` whenever an odd element exists, the literal main loop
 (sparsest-support swap of the variant, update, emission) is a run of the relational model from the given start state -/
@@ -1075,18 +1075,18 @@ end SignedAlgoL
 construction, every behaviour of the heaps and every address order of the edge nodes (per phase), the literal model
 returns a minimum cycle basis of the caller's graph, its weight, and `m - n + c` cycles -/
 theorem mcbSigned_correct (g : Graph) (hs : g.simpleB = true) (hp : g.positiveB = true)
-    (order : List Nat) (ho : order.Perm (List.range g.n)) (pick : List Nat → Nat) (hpick : PickOK pick)
+    (order : List Nat) (ho : order.Perm (List.range g.n)) (pick : Nat → PickFam) (hpick : ∀ k i L, PickOK (pick k i L))
     (σ : Nat → List Nat → List Nat) (hσ : ∀ k S, (σ k S).Perm S) :
     McbCorrect g order (mcbSigned g order pick σ) := by
   have hd := C16.c16_exact_domain g order hs hp ho
   exact SignedAlgoL.mcb_correct_of_core g hs hp order ho .signed _ (List.Perm.refl _) _
-    (fun k S hS hSm hex => SignedAlgoL.signedPhaseSearch_ok _ hd.simple hd.positive pick hpick S hS hSm
+    (fun k S hS hSm hex => SignedAlgoL.signedPhaseSearch_ok _ hd.simple hd.positive (pick k) (hpick k) S hS hSm
       (σ k S) (hσ k S) hex)
 
 /-- **`mcb_sva_signed_tbb`, end to end**: additionally for every order `perm` in which the concurrent `push_back`s filled
 the support vector and every execution of every `parallel_reduce` -/
 theorem mcbSignedTbb_correct (g : Graph) (hs : g.simpleB = true) (hp : g.positiveB = true)
-    (order : List Nat) (ho : order.Perm (List.range g.n)) (pick : List Nat → Nat) (hpick : PickOK pick)
+    (order : List Nat) (ho : order.Perm (List.range g.n)) (pick : Nat → PickFam) (hpick : ∀ k i L, PickOK (pick k i L))
     (σ : Nat → List Nat → List Nat) (hσ : ∀ k S, (σ k S).Perm S)
     (perm : List Nat) (hperm : perm.Perm (List.range (createIndex g order).dim))
     (scheds : Nat → List Nat → Sched)
@@ -1095,7 +1095,7 @@ theorem mcbSignedTbb_correct (g : Graph) (hs : g.simpleB = true) (hp : g.positiv
   have hd := C16.c16_exact_domain g order hs hp ho
   have hp0 : (perm.map fun i => [i]).Perm (unitSupports (createIndex g order).dim) := hperm.map _
   exact SignedAlgoL.mcb_correct_of_core g hs hp order ho .signedTbb _ hp0 _
-    (fun k S hS hSm hex => SignedAlgoL.signedPhaseSearchTbb_ok _ hd.simple hd.positive pick hpick S hS hSm
+    (fun k S hS hSm hex => SignedAlgoL.signedPhaseSearchTbb_ok _ hd.simple hd.positive (pick k) (hpick k) S hS hSm
       (σ k S) (hσ k S) hex (scheds k S) (hcov k S))
 
 end Parmcb
